@@ -168,6 +168,47 @@ def literal_for(lhs, v):
     return None
 
 
+def opaque_names(unit):
+    """
+    names that SubstituteExpressions on ``unit.body`` does not reach: identifiers in PRINT / other GenericStmt nodes
+    (PrintStmt.values is not a traversable field: FindVariables / SubstituteExpressions skip it) and everything the
+    internal procedures of the unit mention (host association)
+    """
+    import re
+    from loki import ir, FindNodes, FindVariables
+    names = set()
+    for g in FindNodes(ir.GenericStmt).visit(unit.body):
+        texts = [str(v) for v in getattr(g, 'values', ())] + [str(g.text or '')]
+        if g.source is not None and g.source.string:
+            texts.append(g.source.string)
+        for t in texts:
+            names |= {w.lower() for w in re.findall(r'[A-Za-z_]\w*', t)}
+    for m in getattr(unit, 'members', ()) or ():
+        for part in (m.spec, m.body):
+            if part is None:
+                continue
+            names |= {str(v.name).lower().split('%')[0] for v in FindVariables().visit(part)}
+            for g in FindNodes(ir.GenericStmt).visit(part):
+                for t in [str(v) for v in getattr(g, 'values', ())] + [str(g.text or '')]:
+                    names |= {w.lower() for w in re.findall(r'[A-Za-z_]\w*', t)}
+    return names
+
+
+def markers_in_ir(sf):
+    """edit markers that are (still) present in the IR: a later edit may remove the construct an earlier one went into"""
+    import re
+    found = []
+
+    def rec(n):
+        t = getattr(n, 'text', None)
+        if isinstance(t, str) and MARK in t:
+            found.extend(re.findall(re.escape(MARK) + r' \d+', t))
+        for c in child_nodes(n):
+            rec(c)
+    rec(sf.ir)
+    return found
+
+
 def new_node(spec, serial):
     from loki import ir
     if spec == 'print':
@@ -214,8 +255,11 @@ def apply_edit(sf, edit, serial, safe):
             if nm not in used:
                 used.append(nm)
         vm = unit.variable_map
+        opaque = opaque_names(unit)
         cand = []
         for nm in used:
+            if nm in opaque:
+                continue      # would stay behind un-substituted (and undefined: the prologue assignment is substituted)
             v = vm.get(nm)
             if v is None or getattr(v, 'dimensions', None) or getattr(v.type, 'shape', None) or '%' in nm:
                 continue
